@@ -10,7 +10,7 @@ import ast
 from typing import Dict, List, Optional, Set, Tuple
 
 from . import core
-from .shared_state import (CacheInfo, SharedWrite, World, locks_at, generic_setter, global_tally_problems, lazy_constant, published_before, recognise_cache, uses_of_attribute, value_dependencies, write_is_definite)
+from .shared_state import (CacheInfo, SharedWrite, World, filled_after_publication, locks_at, generic_setter, global_tally_problems, lazy_constant, published_before, recognise_cache, uses_of_attribute, value_dependencies, write_is_definite)
 
 CACHE_KINDS = {"subscript-store:key", "subscript-store:const", "method:append"}
 
@@ -72,6 +72,11 @@ def classify(ctx, w: World, threads: bool = True):
                 counters.append((sw, k.split(":", 1)[1]))
             continue
         rebinds = [k for k in kinds if k.startswith("global-rebind:")]
+        if threads and rebinds and any(filled_after_publication(w.model, sw.origin_func, k.split(":", 1)[1]) for k in rebinds):
+            why = [filled_after_publication(w.model, sw.origin_func, k.split(":", 1)[1]) for k in rebinds]
+            sw.kinds = {f"global-rebind before the object is complete: {[x for x in why if x][0]}"}
+            bad.append(sw)
+            continue
         if rebinds and len(rebinds) == len(kinds) and all(lazy_constant(w.model, sw.origin_func, k.split(":", 1)[1]) for k in rebinds):
             lazies.append((sw, [lazy_constant(w.model, sw.origin_func, k.split(":", 1)[1]) for k in rebinds]))
             continue
@@ -156,11 +161,21 @@ def run(ctx):
                     if fq in w.reach and not fq.endswith(".__init__") and lk not in locks_at(w.model, fq, node.lineno) \
                             and not _passed_on(w.model, fq, node):
                         loose.append((fq, node.lineno))
+            if not sw.field and sw.obj in w.model.module_vars:
+                mod_, nm_ = sw.obj.rsplit(".", 1)
+                for fq, fi_ in w.model.funcs.items():
+                    if fi_.module != mod_ or fi_.is_module_body or fq not in w.reach:
+                        continue
+                    for n_ in ast.walk(fi_.node):
+                        if isinstance(n_, ast.Name) and n_.id == nm_ and isinstance(n_.ctx, ast.Load) and lk not in locks_at(w.model, fq, n_.lineno):
+                            loose.append((fq, n_.lineno))
             steps = len({l_ for _k, l_, _t in sw.records})
+            if any("before the object is complete" in k_ for k_ in sw.kinds):
+                steps = max(steps, 2)
             if loose and steps > 1:
                 ctx.bad("C16.1", f"shared object {sw.name} is built in several steps under the lock {lk} but read without it", where,
                         f"`{sw.origin_text}` in {sw.origin_func} (and {steps - 1} more writing statements) hold {lk}; {loose[0][0]} line {loose[0][1]} "
-                        f"reads .{sw.field} without it and can see the object half-built (reachable via {w.path_to(sw.owner)})")
+                        f"reads {('.' + sw.field) if sw.field else sw.name} without it and can see the object half-built (reachable via {w.path_to(sw.owner)})")
             else:
                 ctx.unk("C16.1", f"shared object {sw.name} is written under the lock {lk}", where,
                         f"`{sw.origin_text}` in {sw.origin_func}: every writing statement holds {lk}" +
